@@ -1,4 +1,6 @@
 import Firebolt.Spec.Receiver
+import Firebolt.Generated.Source
+import Firebolt.Expected.Source
 /-!
 # C10 — Message receiver: catch up first, then deliver exactly the unacked messages
 
@@ -372,5 +374,16 @@ example :
     let evs : List Ev := [.record (some ⟨m, false⟩), .eof 0, .eof 0, .record (some ⟨m, true⟩), .eof 1]
     (run { partitionCount := 2 } evs).2 = [[], [], [], [], []] ∧ (run { partitionCount := 2 } evs).1.initialized = true := by
   decide
+
+
+/-! ### the functions this model was transcribed from are unchanged (regenerated from /repo on every run) -/
+theorem source_mrHandleEvents : GeneratedSrc.mrHandleEvents = ExpectedSrc.mrHandleEvents := by rfl
+theorem source_mrBuildPartitionAssignments : GeneratedSrc.mrBuildPartitionAssignments = ExpectedSrc.mrBuildPartitionAssignments := by rfl
+theorem source_mrProcessEvent : GeneratedSrc.mrProcessEvent = ExpectedSrc.mrProcessEvent := by rfl
+theorem source_mrProcessMessage : GeneratedSrc.mrProcessMessage = ExpectedSrc.mrProcessMessage := by rfl
+theorem source_mrDeliverMessage : GeneratedSrc.mrDeliverMessage = ExpectedSrc.mrDeliverMessage := by rfl
+theorem source_mrProcessInitBuffer : GeneratedSrc.mrProcessInitBuffer = ExpectedSrc.mrProcessInitBuffer := by rfl
+theorem source_msgUniqueKey : GeneratedSrc.msgUniqueKey = ExpectedSrc.msgUniqueKey := by rfl
+theorem source_tyWireMessage : GeneratedSrc.tyWireMessage = ExpectedSrc.tyWireMessage := by rfl
 
 end Firebolt.C10
